@@ -1,6 +1,521 @@
-//! C20 — not built yet.
+//! C20 — display names follow the documented precedence and macro substitution.
+//!
+//! Case inputs (all self-contained):
+//!   `dis <VX dict> <LOC> <DEF>`            dict_to_dis / HaystackDict::dis on a record
+//!   `pat H(pattern) <VX dict> <LOC>`       dis_macro on an arbitrary pattern
+//!   `seg <VX dict> <LOC> k (KIND H)*k`     dis_macro on a pattern assembled from pieces
+//!                                          KIND: L literal ($-free) | T `$name` | B `${name}` | K `$<key>`
+//! with `LOC ::= k (H(key) H(text))*k` (the localisation callback as a finite map) and
+//! `DEF ::= H(default) | -`.
+//!
+//! Correspondence requests (answered by Hs.Drv.C20 with the Lean model):
+//!   `C20 dis REC LOC DEF`, `C20 disd REC`, `C20 mac H(pattern) REC LOC`   reply `ok H(text)`
+//! where `REC ::= k (H(key) DV)*k`, `DV ::= s H(text) | r H(id) H(dis)|- H(to_string) | o H(to_string)`.
+//!
+//! Oracles on the real code (what the property states, nothing more):
+//!   precedence   the display string is taken from the first of dis, disMacro, disKey, name, def, tag,
+//!                navName, id the record has (a Str gives itself, a disKey its localisation when there is
+//!                one, an id Ref its dis or id, a disMacro Str its expansion, any other value the text the
+//!                same value gives on its own), else the default
+//!   macro_id     a pattern without `$` is returned unchanged
+//!   macro_subst  a pattern assembled from `$`-free literals, `$tag`, `${tag}` (tag = a Haystack tag name,
+//!                `[a-z][a-zA-Z0-9_]*`, not followed by a further name character) and `$<key>` gives the
+//!                concatenation of: the literals verbatim, the tag's display text (Str: the string, Ref:
+//!                dis or id, else to_string) when the record has the tag, the key's localisation when there
+//!                is one, the macro text verbatim otherwise
+//!   (a panic anywhere is recorded by the runner as kind `panic`)
+
 use crate::ctx::{CaseOut, Ctx};
+use crate::gen::{self, Cfg};
+use crate::rng::Rng;
+use crate::vx::{self, h, ho, Rd};
+use libhaystack::val::*;
+use std::borrow::Cow;
+use std::collections::BTreeMap;
+use std::panic::{catch_unwind, AssertUnwindSafe};
 
-pub fn exec(_label: &str, _input: &str, _out: &mut CaseOut) {}
+/// the documented order of precedence (from the statement of the property, NOT from the code)
+const DOCUMENTED: [&str; 8] = ["dis", "disMacro", "disKey", "name", "def", "tag", "navName", "id"];
 
-pub fn generate(_ctx: &mut Ctx) {}
+type LocMap = BTreeMap<String, String>;
+
+fn show_loc(l: &LocMap) -> String {
+    let mut out = vec![l.len().to_string()];
+    for (k, v) in l {
+        out.push(h(k));
+        out.push(h(v));
+    }
+    out.join(" ")
+}
+fn read_loc(rd: &mut Rd) -> Option<LocMap> {
+    let k: usize = rd.num()?;
+    let mut m = LocMap::new();
+    for _ in 0..k {
+        let key = rd.hs()?;
+        let v = rd.hs()?;
+        m.insert(key, v);
+    }
+    Some(m)
+}
+
+/// `Value::to_string()`; None when the Display impl fails (Zinc encoder error: not this property)
+fn display_text(v: &Value) -> Option<String> {
+    catch_unwind(AssertUnwindSafe(|| v.to_string())).ok()
+}
+
+/// the record as the model sees it; None when some value has no display text
+fn show_rec(d: &Dict) -> Option<String> {
+    let mut out = vec![d.len().to_string()];
+    for (k, v) in d.iter() {
+        out.push(h(k));
+        match v {
+            Value::Str(s) => {
+                out.push("s".into());
+                out.push(h(&s.value));
+            }
+            Value::Ref(r) => {
+                out.push("r".into());
+                out.push(h(&r.value));
+                out.push(ho(&r.dis));
+                out.push(h(&display_text(v)?));
+            }
+            _ => {
+                out.push("o".into());
+                out.push(h(&display_text(v)?));
+            }
+        }
+    }
+    Some(out.join(" "))
+}
+
+fn is_tag_start(c: char) -> bool {
+    c.is_ascii_lowercase()
+}
+fn is_tag_char(c: char) -> bool {
+    c.is_ascii_alphanumeric() || c == '_'
+}
+fn is_tag_name(s: &str) -> bool {
+    let mut cs = s.chars();
+    match cs.next() {
+        Some(c) if is_tag_start(c) => cs.all(is_tag_char),
+        _ => false,
+    }
+}
+
+/// the text a macro substitutes for a tag value
+fn macro_text(v: &Value) -> Option<String> {
+    Some(match v {
+        Value::Str(s) => s.value.clone(),
+        Value::Ref(r) => r.dis.clone().unwrap_or_else(|| r.value.clone()),
+        _ => display_text(v)?,
+    })
+}
+
+fn run_macro(pattern: &str, d: &Dict, loc: &LocMap) -> String {
+    dis_macro(pattern, |n| d.get(n).map(Cow::Borrowed), |k| loc.get(k).map(|s| Cow::Owned(s.clone()))).into_owned()
+}
+
+fn run_dis(d: &Dict, loc: &LocMap, def: &Option<String>) -> String {
+    let f = |k: &str| loc.get(k).map(|s| Cow::Owned(s.clone()));
+    dict_to_dis(d, &f, def.clone().map(Cow::Owned)).into_owned()
+}
+
+pub fn exec(_label: &str, input: &str, out: &mut CaseOut) {
+    let (cmd, rest) = input.split_once(' ').unwrap_or((input, ""));
+    match cmd {
+        "dis" => exec_dis(rest, out),
+        "pat" => exec_pat(rest, out),
+        "seg" => exec_seg(rest, out),
+        _ => out.fail("harness", format!("unknown C20 case `{cmd}`")),
+    }
+}
+
+fn exec_dis(rest: &str, out: &mut CaseOut) {
+    let mut rd = Rd::new(rest);
+    let (d, loc, def) = match (|| Some((rd.dict()?, read_loc(&mut rd)?, rd.hos()?)))() {
+        Some(x) => x,
+        None => return out.fail("harness", "unparsable C20 dis input".into()),
+    };
+    let rec = match show_rec(&d) {
+        Some(r) => r,
+        None => return out.stat("skipped:value_without_display_text"),
+    };
+    out.nontrivial = true;
+    let got = run_dis(&d, &loc, &def);
+    out.req(format!("C20 dis {rec} {} {}", show_loc(&loc), ho(&def)), format!("ok {}", h(&got)));
+    let plain = d.dis().into_owned();
+    out.req(format!("C20 disd {rec}"), format!("ok {}", h(&plain)));
+
+    // ---- oracle: precedence ---------------------------------------------------------------
+    let first = DOCUMENTED.iter().find(|t| d.get(**t).is_some());
+    out.stat(&format!("first:{}", first.copied().unwrap_or("(none)")));
+    let check = |what: &str, got: &str, loc: &LocMap, def: &Option<String>, out: &mut CaseOut| {
+        let expected: String = match first {
+            None => def.clone().unwrap_or_default(),
+            Some(t) => {
+                let v = d.get(*t).unwrap();
+                match (*t, v) {
+                    ("disMacro", Value::Str(s)) => run_macro(&s.value, &d, loc),
+                    ("disKey", Value::Str(s)) => loc.get(&s.value).cloned().unwrap_or_else(|| s.value.clone()),
+                    ("id", Value::Ref(r)) => r.dis.clone().unwrap_or_else(|| r.value.clone()),
+                    (_, Value::Str(s)) => s.value.clone(),
+                    _ => {
+                        // any other value: the text this value gives when it is the only tag
+                        let mut single = Dict::new();
+                        single.insert(t.to_string(), v.clone());
+                        run_dis(&single, loc, def)
+                    }
+                }
+            }
+        };
+        if got != expected {
+            out.fail(
+                "precedence",
+                format!("{what}: first present display tag is {:?}; expected {:?}, got {:?}", first, expected, got),
+            );
+        }
+    };
+    check("dict_to_dis", &got, &loc, &def, out);
+    check("HaystackDict::dis", &plain, &LocMap::new(), &None, out);
+    if let Some(t) = first {
+        out.stat(&format!("kind:{}", kind_name(d.get(*t).unwrap())));
+    }
+}
+
+fn kind_name(v: &Value) -> &'static str {
+    match v {
+        Value::Null => "Null",
+        Value::Remove => "Remove",
+        Value::Marker => "Marker",
+        Value::Bool(_) => "Bool",
+        Value::Na => "Na",
+        Value::Number(_) => "Number",
+        Value::Str(_) => "Str",
+        Value::Uri(_) => "Uri",
+        Value::Ref(r) => {
+            if r.dis.is_some() {
+                "Ref+dis"
+            } else {
+                "Ref"
+            }
+        }
+        Value::Symbol(_) => "Symbol",
+        Value::Date(_) => "Date",
+        Value::Time(_) => "Time",
+        Value::DateTime(_) => "DateTime",
+        Value::Coord(_) => "Coord",
+        Value::XStr(_) => "XStr",
+        Value::List(_) => "List",
+        Value::Dict(_) => "Dict",
+        Value::Grid(_) => "Grid",
+    }
+}
+
+fn exec_pat(rest: &str, out: &mut CaseOut) {
+    let mut rd = Rd::new(rest);
+    let (pattern, d, loc) = match (|| Some((rd.hs()?, rd.dict()?, read_loc(&mut rd)?)))() {
+        Some(x) => x,
+        None => return out.fail("harness", "unparsable C20 pat input".into()),
+    };
+    let rec = match show_rec(&d) {
+        Some(r) => r,
+        None => return out.stat("skipped:value_without_display_text"),
+    };
+    let got = run_macro(&pattern, &d, &loc);
+    out.nontrivial = pattern.contains('$');
+    out.req(format!("C20 mac {} {rec} {}", h(&pattern), show_loc(&loc)), format!("ok {}", h(&got)));
+    if !pattern.contains('$') {
+        out.stat("pat:no_dollar");
+        if got != pattern {
+            out.fail("macro_id", format!("pattern without `$` {:?} came back as {:?}", pattern, got));
+        }
+    } else if got == pattern {
+        out.stat("pat:unchanged");
+    } else {
+        out.stat("pat:substituted");
+    }
+}
+
+fn exec_seg(rest: &str, out: &mut CaseOut) {
+    let mut rd = Rd::new(rest);
+    let parsed = (|| {
+        let d = rd.dict()?;
+        let loc = read_loc(&mut rd)?;
+        let k: usize = rd.num()?;
+        let mut segs = Vec::new();
+        for _ in 0..k {
+            let kind = rd.tok()?.to_string();
+            let text = rd.hs()?;
+            segs.push((kind, text));
+        }
+        Some((d, loc, segs))
+    })();
+    let (d, loc, segs) = match parsed {
+        Some(x) => x,
+        None => return out.fail("harness", "unparsable C20 seg input".into()),
+    };
+    let rec = match show_rec(&d) {
+        Some(r) => r,
+        None => return out.stat("skipped:value_without_display_text"),
+    };
+    // the pattern and what the property says it expands to
+    let mut pattern = String::new();
+    let mut expected = String::new();
+    let mut pieces: Vec<String> = Vec::new();
+    let mut well_formed = true;
+    for (kind, text) in &segs {
+        let (src, repl) = match kind.as_str() {
+            "L" => {
+                well_formed &= !text.contains('$');
+                (text.clone(), text.clone())
+            }
+            "T" | "B" => {
+                well_formed &= is_tag_name(text);
+                let src = if kind == "T" { format!("${text}") } else { format!("${{{text}}}") };
+                let repl = match d.get(text) {
+                    Some(v) => match macro_text(v) {
+                        Some(t) => t,
+                        None => return out.stat("skipped:value_without_display_text"),
+                    },
+                    None => src.clone(),
+                };
+                (src, repl)
+            }
+            "K" => {
+                well_formed &= !text.is_empty() && !text.contains('>') && !text.contains('$');
+                let src = format!("$<{text}>");
+                let repl = loc.get(text).cloned().unwrap_or_else(|| src.clone());
+                (src, repl)
+            }
+            _ => return out.fail("harness", format!("unknown piece kind {kind}")),
+        };
+        pattern.push_str(&src);
+        expected.push_str(&repl);
+        pieces.push(src);
+    }
+    // a `$name` must not be followed by a further name character (the name would be longer)
+    let mut offset = 0;
+    for (i, (kind, _)) in segs.iter().enumerate() {
+        offset += pieces[i].len();
+        if kind == "T" {
+            if let Some(c) = pattern[offset..].chars().next() {
+                well_formed &= !is_tag_char(c);
+            }
+        }
+    }
+    let got = run_macro(&pattern, &d, &loc);
+    out.nontrivial = true;
+    out.req(format!("C20 mac {} {rec} {}", h(&pattern), show_loc(&loc)), format!("ok {}", h(&got)));
+    if !well_formed {
+        out.stat("seg:not_delimited");
+        return;
+    }
+    out.stat("seg:delimited");
+    if segs.iter().any(|(k, t)| (k == "T" || k == "B") && t.chars().count() == 1) {
+        out.stat("seg:one_letter_tag");
+    }
+    if got != expected {
+        out.fail(
+            "macro_subst",
+            format!("pattern {:?} (pieces {:?}) expected {:?}, got {:?}", pattern, pieces, expected, got),
+        );
+    }
+}
+
+// ---- generators ---------------------------------------------------------------------------------
+
+const NAMES: &[&str] = &[
+    "a", "b", "x", "ab", "aB", "a1", "a_", "a_b", "abc", "equipRef", "siteRef", "navName", "dis", "id", "name", "x1", "foo_Bar",
+    "z9_Q",
+];
+const KEYS: &[&str] = &["k", "pod::hello", "a", "ui::site name", "é", "<x", "{k}", "a b", "::"];
+
+fn lit_piece(rng: &mut Rng) -> String {
+    const ALPHA: &[&str] = &[
+        " ", " ", "{", "}", "<", ">", "a", "b", "B", "Z", "0", "9", "_", "-", ".", ":", "é", "ü", "中", "😀", "\u{10ffff}", "\n", "\t",
+        "ab", "aB", "x1", "}{", "<>", "{a}", "<k>", "\u{0}", "\"", "\\",
+    ];
+    let n = rng.below(5);
+    (0..n).map(|_| *rng.pick(ALPHA)).collect()
+}
+
+fn tag_value(rng: &mut Rng, kind: u64) -> Value {
+    let cfg = Cfg::wf(1);
+    match kind {
+        0 => Value::make_str(*rng.pick(&["display", "", "a $b c", "Ünï cödé 中", "$<k>", "x"])),
+        1 => Value::Ref(Ref { value: gen::ref_id(rng), dis: None }),
+        2 => Value::Ref(Ref { value: gen::ref_id(rng), dis: Some(rng.pick(&["Site 1", "", "é$a", "d"]).to_string()) }),
+        3 => Value::Number(gen::number(rng, &cfg)),
+        4 => Value::Marker,
+        5 => Value::make_bool(rng.chance(1, 2)),
+        6 => Value::Str(Str { value: gen::text(rng) }),
+        _ => gen::value(rng, &cfg),
+    }
+}
+
+fn loc_map(rng: &mut Rng, extra: &[String]) -> LocMap {
+    let mut m = LocMap::new();
+    if rng.chance(1, 4) {
+        return m;
+    }
+    for k in KEYS {
+        if rng.chance(1, 2) {
+            m.insert(k.to_string(), rng.pick(&["world", "", "L$a", "ß", "Site Name"]).to_string());
+        }
+    }
+    for k in extra {
+        if rng.chance(1, 2) {
+            m.insert(k.clone(), "translated".to_string());
+        }
+    }
+    m
+}
+
+/// a record with some of NAMES bound to values of assorted kinds
+fn scope(rng: &mut Rng) -> Dict {
+    let mut d = Dict::new();
+    for n in NAMES {
+        if rng.chance(2, 5) {
+            let kind = rng.below(9);
+            d.insert(n.to_string(), tag_value(rng, kind));
+        }
+    }
+    // keys that are not tag names: the regex cannot name them
+    if rng.chance(1, 4) {
+        d.insert("Ab".into(), Value::make_str("upper"));
+        d.insert("9a".into(), Value::make_str("digit"));
+        d.insert("_a".into(), Value::make_str("underscore"));
+    }
+    d
+}
+
+fn random_pattern(rng: &mut Rng) -> String {
+    const TOK: &[&str] = &[
+        "$", "$", "$", "{", "}", "<", ">", " ", " ", "$$", "${", "$<", "${}", "$<>", "a", "b", "ab", "aB", "a1", "a_", "a_b", "abc",
+        "equipRef", "siteRef", "x", "B", "Ab", "9", "9a", "_", "_a", "-", ".", ":", "::", "pod::hello", "k", "é", "中", "😀", "\n", "\u{0}",
+        "$a", "$ab", "${ab}", "$<k>", "${a}", "$<pod::hello>", "$é", "$A", "$_", "$1", "}$", ">$",
+    ];
+    let n = 1 + rng.below(9);
+    (0..n).map(|_| *rng.pick(TOK)).collect()
+}
+
+fn fixed_scope() -> (Dict, LocMap) {
+    let mut d = Dict::new();
+    d.insert("a".into(), Value::make_str("<A>"));
+    d.insert("aa".into(), Value::make_str("<AA>"));
+    d.insert("aB".into(), Value::make_ref_with_dis("r1", "<dis>"));
+    d.insert("a1".into(), Value::make_ref("r2"));
+    d.insert("aaa".into(), Value::make_number(2.5));
+    d.insert("B".into(), Value::make_str("<upper>"));
+    d.insert("1".into(), Value::make_str("<digit>"));
+    let mut l = LocMap::new();
+    for k in ["a", "aa", "B", "1", " ", "a1", "$a", "{a}", "<a", "a<"] {
+        l.insert(k.to_string(), format!("[{k}]"));
+    }
+    (d, l)
+}
+
+pub fn generate(ctx: &mut Ctx) {
+    let show_dict = |d: &Dict| vx::show(&Value::Dict(d.clone()));
+    // 0. the patterns asserted by the crate's own tests and the documented forms
+    {
+        let (d, l) = fixed_scope();
+        for p in [
+            "", "$", "$$", "$a", "${a}", "$<a>", "$aa", "$aB!", "${aB}", "$<zz>", "$zz", "${zz}", "$a$aa", "$aa$a", "${a}${aa}", "$<a><a>",
+            "$<a$aa>", "${a", "$<a", "$a}", "$ {a}", "${ a}", "${a }", "$<>", "$<>>", "${}", "$A", "$B", "$1", "$_a", "$é", "$aé", "$aa中",
+            "x$a.y", "$a_", "$a-$aa", "$aaa", "$aaaa", "a$", "$<\n>", "$<a\n>", "$\u{0}", "€$a1€",
+        ] {
+            ctx.case("doc", &format!("pat {} {} {}", h(p), show_dict(&d), show_loc(&l)));
+        }
+    }
+    // 1. all 2^8 subsets of the display tags x value kinds
+    let variants = ctx.n(8, 48);
+    for mask in 0u32..256 {
+        for variant in 0..variants {
+            let mut rng = ctx.rng.fork();
+            let mut d = Dict::new();
+            let mut keys_for_loc = Vec::new();
+            for (i, t) in DOCUMENTED.iter().enumerate() {
+                if mask & (1 << i) == 0 {
+                    continue;
+                }
+                let kind = if variant < 7 { variant } else { rng.below(9) };
+                let mut v = tag_value(&mut rng, kind);
+                if *t == "disMacro" && matches!(v, Value::Str(_)) && rng.chance(3, 4) {
+                    v = Value::make_str(&random_pattern(&mut rng));
+                }
+                if *t == "disKey" {
+                    if let Value::Str(s) = &v {
+                        keys_for_loc.push(s.value.clone());
+                    }
+                }
+                d.insert(t.to_string(), v);
+            }
+            // other tags the macro may name
+            if rng.chance(1, 2) {
+                for (k, v) in scope(&mut rng).iter() {
+                    if !DOCUMENTED.contains(&k.as_str()) {
+                        d.insert(k.clone(), v.clone());
+                    }
+                }
+            }
+            let loc = loc_map(&mut rng, &keys_for_loc);
+            let def = match rng.below(3) {
+                0 => None,
+                1 => Some("default".to_string()),
+                _ => Some(String::new()),
+            };
+            ctx.case("dis", &format!("dis {} {} {}", show_dict(&d), show_loc(&loc), ho(&def)));
+        }
+    }
+    // 2. every string up to a length over a small alphabet, in a fixed scope
+    {
+        let (d, l) = fixed_scope();
+        let (ds, ls) = (show_dict(&d), show_loc(&l));
+        let alpha = ['$', '{', '}', '<', '>', 'a', 'B', '1', ' '];
+        let max_len = ctx.n(4, 5) as usize;
+        for len in 1..=max_len {
+            let total = alpha.len().pow(len as u32);
+            for n in 0..total {
+                let mut m = n;
+                let mut p = String::new();
+                for _ in 0..len {
+                    p.push(alpha[m % alpha.len()]);
+                    m /= alpha.len();
+                }
+                // strings without `$` are all alike: keep one in sixteen of them
+                if p.contains('$') || ctx.rng.chance(1, 16) {
+                    ctx.case("enum", &format!("pat {} {ds} {ls}", h(&p)));
+                }
+            }
+        }
+    }
+    // 3. random patterns over the macro alphabet
+    for _ in 0..ctx.n(3000, 150_000) {
+        let mut rng = ctx.rng.fork();
+        let d = scope(&mut rng);
+        let loc = loc_map(&mut rng, &[]);
+        let p = if rng.chance(1, 8) { gen::text(&mut rng) } else { random_pattern(&mut rng) };
+        ctx.case("rand", &format!("pat {} {} {}", h(&p), show_dict(&d), show_loc(&loc)));
+    }
+    // 4. assembled patterns with a known expansion
+    for _ in 0..ctx.n(3000, 150_000) {
+        let mut rng = ctx.rng.fork();
+        let d = scope(&mut rng);
+        let loc = loc_map(&mut rng, &[]);
+        let k = 1 + rng.below(6);
+        let mut toks = vec![k.to_string()];
+        for _ in 0..k {
+            let (kind, text) = match rng.below(8) {
+                0 | 1 | 2 => ("L", lit_piece(&mut rng)),
+                3 | 4 => ("T", rng.pick(NAMES).to_string()),
+                5 => ("B", rng.pick(NAMES).to_string()),
+                6 => ("K", rng.pick(KEYS).to_string()),
+                _ => ("T", gen::ident(&mut rng)),
+            };
+            toks.push(kind.to_string());
+            toks.push(h(&text));
+        }
+        ctx.case("seg", &format!("seg {} {} {}", show_dict(&d), show_loc(&loc), toks.join(" ")));
+    }
+}
